@@ -59,6 +59,9 @@ func checkC09(c *Ctx) {
 				h, ok := held[a.Fn]
 				if !ok {
 					h = MustHeld(a.Fn, nil)
+					if Eligible(a.Fn) {
+						h = MustHeldCtx(a.Fn) // an unexported helper: what every one of its callers holds counts
+					}
 					held[a.Fn] = h
 				}
 				k2 := h[a.Instr][g.mu]
